@@ -9,6 +9,12 @@ TRUSTED_BASE = [
     "document value; the frame theorem says a step changes at most its target document. That the Python objects behave "
     "like values (no aliasing between documents) is exactly what the correspondence run and the direct frame oracle "
     "establish on the implementation",
+    "model: coq/theories/Alias.v astep — a store of managers, records and bundles/documents that point at each other; every "
+    "call allocates, links and writes as model.py does (hand-written account; content reduced to write counters; the ghost field "
+    "aown is read by no call). Tied per run: the implementation's object graph by id() after every call against Alias.atrace. "
+    "Counts that depend on content (records kept by unified(), coinciding bundle identifiers in update(), what a deserialised "
+    "document holds, records made by a factory call) are arguments of the model's calls and are read off the implementation. "
+    "Outside the store model: add_bundle(ProvBundle object), bundle.unified() results (checked by the oracle directly)",
     "extraction: ExtrOcamlBasic + ExtrOcamlString; ocaml/driver.ml",
 ]
 ASSUMPTIONS = [
